@@ -20,7 +20,7 @@ from concurrent.futures import ThreadPoolExecutor
 from typing import Any
 
 from .. import leanio
-from ..core import CORPUS, ROOT, Ctx, load_corpus
+from ..core import ROOT, Ctx, load_corpus
 
 ID = "C20"
 LEVEL = "proof"
@@ -32,12 +32,16 @@ LEVEL_TEXT = (
     "Lean theorems for every label list (no bound) of an LTS of the root-task choreography: no_api_before_startup, "
     "failed_startup_no_api, ready_after_startup, root_failure_stops_all (+ no lingering: time cannot pass while a root task "
     "has ended and run_tasks still waits), cleanup_last, reraise, daemons_stopped, peering_withdrawn, "
-    "worker_failure_reaches_watcher, exit_bound (exit <= t0 + E + W + C + H under 'tasks honour cancellation' and 'the cleanup "
-    "activity takes at most C' — kopf itself sets no limit for cleanup handlers, so that part is an assumption: partial w.r.t. "
-    "non-cooperative threads). The stream/worker-failure clause is FALSE of the code (finding F3): stream_failure_lingers_witness "
-    "proves the negation on the model as the code is, stream_failure_stops_all_partial covers the root observers' own streams, "
-    "and stream_failure_stops_all is proved for the model variant `fixed` that has the missing edge. The hand-written model is "
-    "tied to the code by trace acceptance of seeded whole-operator histories.")
+    "worker_failure_reaches_watcher, exit_bound (exit <= t0 + E + W + D + C + H: exit_timeout, peering withdrawal, daemon exit "
+    "stoppers, cleanup activity, 5 s hung-task grace — under 'tasks honour cancellation' and 'the cleanup activity takes at most C'; "
+    "kopf itself sets no limit for cleanup handlers, so that part is an assumption: partial w.r.t. non-cooperative threads). The "
+    "stream/worker-failure clause is FALSE of the code (finding F3): stream_failure_lingers_witness proves the negation on the model "
+    "as the code is, stream_failure_stops_all_partial / worker_failure_stops_all_partial cover the root observers' own streams and "
+    "workers, and stream_failure_stops_all is proved for the model variant `fixed` that has the missing edge (the check switches to "
+    "that variant by itself once F3 no longer reproduces). The hand-written model is tied to the code by trace acceptance (labels "
+    "and timing) of seeded whole-operator histories. One more defect of the tree is met and listed: C20-F2 (orphaned discovery "
+    "requests during cleanup); C20-F4 (daemon killer crashing on 'dictionary changed size during iteration') was met before /repo "
+    "commit 06bf1c1 repaired it: its witness stays in the corpus and its oracle clause stays strict.")
 THEOREMS = [("Kopf.Props.C20", "Kopf.C20." + n) for n in [
     "no_api_before_startup", "failed_startup_no_api", "ready_after_startup", "root_failure_stops_all",
     "root_failure_no_lingering", "cleanup_last", "reraise", "daemons_stopped", "peering_withdrawn",
@@ -55,7 +59,11 @@ RULE = ("seeded lifecycle histories: 0-2 startup handlers (ok / sleeping / tempo
 TRUSTED = ["harness/sim (virtual-time loop, fake API server, scripted handlers) and harness/props/sim_c20.py (attribute-level "
            "instrumentation: each log entry is written inside the atomic segment it names)",
            "CPython asyncio task/cancellation semantics — exercised, not modelled"]
-ASSUMPTIONS = ["one stop trigger per run (a second cancellation of operator() while it is stopping abandons the tasks by design)",
+ASSUMPTIONS = ["operator() must return within  2*E + W + D + C + H + 1 s  after the first trigger (E = settings.queueing.exit_timeout: once for the "
+               "depletion inside a failing watcher before its failure escalates, once at shutdown; W = sum(error_backoffs) + retries of the "
+               "withdrawal PATCH, peering only; D = max(cancellation_backoff + cancellation_timeout) over daemons; C = scripted duration of "
+               "the cleanup handlers; H = 5 s hard-coded hung-task grace of run_tasks; 1 s slack for request latencies)",
+               "one stop trigger per run (a second cancellation of operator() while it is stopping abandons the tasks by design)",
                "tasks honour cancellation (a daemon swallowing more cancellations than stop_daemon + run_tasks send hangs the exit: "
                "aiotasks.stop has no timeout)",
                "the cleanup activity is bounded by the scripted duration C (kopf sets no timeout for cleanup handlers)",
